@@ -631,14 +631,15 @@ type gDoc struct {
 }
 
 type docOpts struct {
-	collisions      bool // allow repeated response keys
-	abstract        bool // fragments on related / unrelated types (not only the container type)
-	maxDepth        int
-	nestedFrags     bool // named fragments spread other named fragments and are spread more than once (acyclic)
-	anonAmongOthers bool // sometimes leave one of several operations without a name (C01)
-	unknownOp       bool // sometimes pass an operation name the document does not define
-	fewDirs         bool // at most one, literal-conditioned directive per selection
-	allArgs         bool // supply every declared argument (the feature set common to the three strategies)
+	collisions        bool // allow repeated response keys
+	abstract          bool // fragments on related / unrelated types (not only the container type)
+	maxDepth          int
+	nestedFrags       bool // named fragments spread other named fragments and are spread more than once (acyclic)
+	unionMemberFields bool // (invalid documents) a field of a member type selected directly under a union-typed field
+	anonAmongOthers   bool // sometimes leave one of several operations without a name (C01)
+	unknownOp         bool // sometimes pass an operation name the document does not define
+	fewDirs           bool // at most one, literal-conditioned directive per selection
+	allArgs           bool // supply every declared argument (the feature set common to the three strategies)
 }
 
 func (d *gDoc) genDirs(r *Rng) []gDir {
@@ -685,9 +686,10 @@ func (d *gDoc) genSels(r *Rng, s *gSchema, ty string, depth int, o docOpts, inFr
 	case "object", "iface":
 		fields = t.fields
 	case "union":
-		// ggql resolves a field selected directly under a union-typed field against the member type of each
-		// value: take the definition from one member (others may lack it or type it differently)
-		if r.Chance(60) {
+		// a union has no fields of its own: only __typename and fragments may be selected on it.  (As coded at first
+		// ggql resolved a field selected directly there against the member type of each value — D103; documents
+		// doing that are not valid GraphQL and are generated only as C10 faults: o.unionMemberFields.)
+		if o.unionMemberFields && r.Chance(60) {
 			seen := map[string]bool{}
 			ms := append([]string{}, t.members...)
 			for i := range ms {
